@@ -361,9 +361,12 @@ pub fn enumerate(ctx: &Ctx, parts: &str, f: &mut dyn FnMut(&EncCase)) {
                 }
             }
             for ch in 3..=8u8 {
-                if ctx.mine() {
-                    let pcm = hetero(0o31203120 >> (3 * (8 - ch as u32)), ch as usize, 16, b + 3);
-                    f(&EncCase { set: "k", w: WriterKind::Channel, opt, sig: Sig { rate: 96000, bps: 16, ch }, pcm: &pcm });
+                for bps in [16u32, 24, 32] {
+                    // (8 channels × 24 bit × 4096 samples = 96 KiB of interleaved PCM per block: frames beyond 64 KiB)
+                    if ctx.mine() {
+                        let pcm = hetero(0o31203120 >> (3 * (8 - ch as u32)), ch as usize, bps, b + 3);
+                        f(&EncCase { set: "k", w: if bps == 24 { WriterKind::Sample } else { WriterKind::Channel }, opt, sig: Sig { rate: 96000, bps, ch }, pcm: &pcm });
+                    }
                 }
             }
         }
